@@ -1,6 +1,7 @@
 CONSTANTS
+  Before = TRUE
   T = 4
 INIT Init
 NEXT Next
-INVARIANT InvAll
+INVARIANT Inv
 CHECK_DEADLOCK FALSE
